@@ -145,3 +145,48 @@ func vfH_c03_entry() {
 	}
 	vfCover("done")
 }
+
+// H03-seq: a failed Unmarshal must leave nothing behind (pooled map-entry scratch structs, partially built values):
+// step 1 decodes a message whose map entry breaks off after part of it was decoded (wrong wire type on the last field of
+// the entry's message value / of the key); step 2 is the ordinary round trip of the shape, which must be unaffected.
+func vfH_c03_seq() {
+	sh := shapes[vfShape]
+	var bad []byte
+	switch sh.name {
+	case "maps":
+		// field 2 = map<int64, pInner>: entry { key=5, value={X=9, Y="st"}, then a field with the invalid wire type 7 }:
+		// key and value are fully decoded into the scratch entry before the entry is rejected
+		val := pbFieldBytes(pbFieldVarint(nil, 1, 9), 2, []byte("st"))
+		entry := append(pbFieldBytes(pbFieldVarint(nil, 1, 5), 2, val), 3<<3|7)
+		bad = pbFieldBytes(nil, 2, entry)
+	case "mapptr":
+		// field 3 = map<uint32,*pInner>, the same; (field 1 = map<int32,bytes> and field 2 = map<string,*int64> likewise)
+		val := pbFieldBytes(pbFieldVarint(nil, 1, 3), 2, []byte("st"))
+		entry := append(pbFieldBytes(pbFieldVarint(nil, 1, 1), 2, val), 3<<3|7)
+		switch vfMode {
+		case 0:
+			bad = pbFieldBytes(nil, 3, entry)
+		case 1:
+			bad = pbFieldBytes(nil, 1, append(pbFieldBytes(pbFieldVarint(nil, 1, 2), 2, []byte("stale-bytes")), 3<<3|7))
+		default:
+			bad = pbFieldBytes(nil, 2, append(pbFieldVarint(pbFieldBytes(nil, 1, []byte("zz")), 2, 77), 3<<3|7))
+		}
+	default:
+		return
+	}
+	err := Unmarshal(bad, sh.newp())
+	vfAssert(err != nil, "step-1-fails-as-intended")
+	v := sh.mk()
+	b, err := Marshal(v)
+	vfAssert(err == nil, "marshal-never-fails")
+	if err != nil {
+		return
+	}
+	p := sh.newp()
+	err = Unmarshal(b, p)
+	vfAssert(err == nil, "unmarshal-of-marshal-ok")
+	if err == nil {
+		sh.check(v, p)
+	}
+	vfCover("done")
+}
